@@ -1,10 +1,16 @@
 #!/bin/sh
 # tools/recheck_seeded.sh <ID>-m<k> [checks]  : re-verify a stored seeded change against the current checks and /repo head
+# (default checks: those recorded in the change's meta.json)
 cd "$(dirname "$0")/.." || exit 2
 d=seeded/$1
 [ -d "$d" ] || { echo "no $d"; exit 2; }
-id=${1%%-*}; k=${1##*-m}
+id=${1%%-*}; rest=${1#*-}; k=${rest##*m}; tag=${rest%m*}
+checks=$2
+if [ -z "$checks" ] && [ -f $d/meta.json ]; then
+  checks=$(/venv/bin/python -c "import json,sys; print(','.join(sorted(json.load(open(sys.argv[1])).get('checks', {}).keys())))" $d/meta.json)
+fi
 t=$(mktemp -d /tmp/reseed_XXXX)
 cp $d/patch.diff $t/m$k.diff; cp $d/demo.py $t/demo$k.py; [ -f $d/note.md ] && cp $d/note.md $t/note$k.md
-if [ -n "$2" ]; then tools/keepmut.py $id $t $k --checks $2; else tools/keepmut.py $id $t $k; fi
+if [ -n "$tag" ]; then tagopt="--tag $tag"; else tagopt=""; fi
+if [ -n "$checks" ]; then tools/keepmut.py $id $t $k $tagopt --checks $checks; else tools/keepmut.py $id $t $k $tagopt; fi
 rm -rf $t
